@@ -41,3 +41,30 @@ def run_r(pid, tier, seed, scns, acceptors, bound, on_exc, required_witness, rul
     if len(tot["digests"]) < 2:
         res.harness_errors.append("vacuous: one outcome from %d executions" % tot["n"])
     return res
+
+
+# ------------------------------------------------------------------------------------------------
+# whole-run part of checks whose main engine is M (C01, C02): the statement evaluated on every matching round of
+# every execution of all Engine-R scenario families
+
+
+def whole_run_scenarios(tier):
+    from ..families import cross_family
+    from ..scenarios_r import base_family
+    sc = dict(base_family())
+    sc.update(cross_family(tier))
+    return sc
+
+
+def _not_owned(w):
+    return None  # runs that abort belong to the checks that own the scenario families
+
+
+def run_whole_runs(res, pid, tier, seed, acceptors, rule):
+    run_r(pid, tier, seed, whole_run_scenarios(tier), acceptors, 1 if tier == "quick" else 2, _not_owned, ["whole_run_rounds_with_fills"], rule,
+          res=res, label="whole_runs", split=0)
+    return res
+
+
+def replay_whole_runs(payload, acceptors):
+    return replay_r(whole_run_scenarios("thorough"), acceptors, _not_owned, payload)
